@@ -22,12 +22,14 @@ LEVEL = "exploration"
 RULE = ("seeded random cases: operator (switch_latest on an outer of observables / switch_map / switch_map_indexed / "
         "flat_map_latest with a mapper returning pre-built probes keyed by the outer value), outer probe source (cold, hot "
         "or synchronous) with 0..5 arrivals ending in C / E / never, 1..4 inner probe sources (cold, hot, synchronous) "
-        "with 0..4 elements ending in C / E / never (one in five ignores its unsubscription, so that stale elements and stale errors really reach the operator) on a coarse grid so that lifetimes overlap and an arrival often "
+        "with 0..4 elements ending in C / E / never (one in five keeps emitting after it was unsubscribed, so that stale "
+        "elements and stale errors really reach the operator) on a coarse grid so that lifetimes overlap and an arrival often "
         "coincides with an inner notification; the same inner may arrive again; non-trivial = at least one switch "
-        "(an arrival while an earlier inner was still open); distinct = digest of (operator, timelines)")
-ASSUMPTIONS = ["reactivex.testing.TestScheduler is the clock (checked by C28)", "probe sources are harness code (conforming)",
+        "(an arrival while an earlier inner was still open); subscription with scheduler=TestScheduler or without a "
+        "scheduler argument; distinct = digest of (operator, timelines)")
+ASSUMPTIONS = ["reactivex.testing.TestScheduler is the clock (checked by C28)", "probe sources are harness code (conforming, except that some inners deliberately ignore their unsubscription)",
                "map / map_indexed are used inside the operators under test (checked by C05)"]
-CASES = {"quick": 6000, "thorough": 120000}
+CASES = {"quick": 6000, "thorough": 360000}
 UNIT_TIMEOUT = {"quick": 300, "thorough": 3600}
 OPS = ["switch_latest", "switch_map", "switch_map_indexed", "flat_map_latest"]
 REQUIRED = {"set:ops": len(OPS), "switches_with_open_previous": {"quick": 3000, "thorough": 60000},
@@ -59,7 +61,7 @@ def gen_case(r: Any, idx: int) -> dict:
     outer = gen_source(r, "outer", domain="ints", maxlen=5, term=r.choice(["C", "C", "C", "C", "E", None]),
                        kinds=("cold", "cold", "cold", "hot", "sync"))
     outer["tl"] = [(t, k, r.choice(names) if k == "N" else v) for (t, k, v) in outer["tl"]]
-    return {"op": op, "outer": outer, "inners": inners, "domain": domain}
+    return {"op": op, "outer": outer, "inners": inners, "domain": domain, "scheduler_arg": r.random() < 0.7}
 
 
 def build(case: dict, lab: Lab, S: dict, outer_src: Any) -> Any:
@@ -181,7 +183,7 @@ def monitor(case: dict, lab: Lab) -> tuple[list, list, dict]:
 
 
 def describe(case: dict) -> dict:
-    return {"op": case["op"], "outer": show_source(case["outer"]), "inners": [show_source(s) for s in case["inners"].values()]}
+    return {"op": case["op"], "scheduler_arg": case["scheduler_arg"], "outer": show_source(case["outer"]), "inners": [show_source(s) for s in case["inners"].values()]}
 
 
 def run_case(seed: int, idx: int, res: UnitResult) -> None:
@@ -193,7 +195,7 @@ def run_case(seed: int, idx: int, res: UnitResult) -> None:
     if case["op"] == "switch_latest":
         spec["tl"] = [(t, k, S[v] if k == "N" else v) for (t, k, v) in spec["tl"]]
     outer_src = build_source(lab, spec)
-    top = run_pipeline(lab, lambda: build(case, lab, S, outer_src))
+    top = run_pipeline(lab, lambda: build(case, lab, S, outer_src), with_scheduler=case["scheduler_arg"])
     actual = top.timed()
     expected, problems, st = monitor(case, lab)
     desc = describe(case)
@@ -213,6 +215,8 @@ def run_case(seed: int, idx: int, res: UnitResult) -> None:
     res.count("stale_inner_errors_in_trace", st["stale_err"])
     if st["after_end_subs"]:
         res.count("obs:subscriptions_after_output_ended", st["after_end_subs"])
+    if not case["scheduler_arg"]:
+        res.count("cases_subscribed_without_scheduler_argument")
     if any(s["kind"] == "sync" for s in case["inners"].values()):
         res.count("cases_with_sync_inner")
     why = match_exact(expected, actual)
